@@ -124,6 +124,8 @@ def plan(tier, seed):
         out.append({'kind': 'long-gap', 'seed': seed, 'idx': i})
     for i in range(4 if tier == 'quick' else 20):
         out.append({'kind': 'empty-arbiter', 'seed': seed, 'idx': i})
+    for i in range(12 if tier == 'quick' else 120):
+        out.append({'kind': 'failed-stop', 'seed': seed, 'idx': i})
     return out
 
 
@@ -237,6 +239,9 @@ def run_case(spec):
         return res
     if spec.get('kind') == 'empty-arbiter':
         empty_arbiter(spec, res)
+        return res
+    if spec.get('kind') == 'failed-stop':
+        failed_stop(spec, res)
         return res
     if 'B' in spec:                     # concrete (replay)
         h = spec['h']
@@ -471,6 +476,59 @@ def empty_arbiter(spec, res):
     finally:
         w.close()
     res.sample = {'case': 'periodic check of an arbiter without watchers', 'watchers_removed_first': n0}
+
+
+def failed_stop(spec, res):
+    """an operation that ends with an error half-way (the watcher's output stream cannot be closed: disk full) leaves the
+    watcher in a transient status; whatever is asked next for it must end, and free the slot"""
+    rnd = rng_for(spec['seed'], 'C10-failed-stop', spec['idx'])
+    second = ['stop', 'restart', 'rm', 'stop-all', 'reload', 'start', 'incr', 'set'][spec['idx'] % 8]
+    h = {'kill_latency': 0.0,
+         'watchers': [{'name': 'f', 'numprocesses': 2, 'graceful_timeout': rnd.choice([0.1, 0.5]),
+                       'close_fails': rnd.choice([1, 1, 2]), 'beh': [{'15': ['die', rnd.choice([0, 0.05])]}]},
+                      {'name': 'p', 'numprocesses': 1, 'graceful_timeout': 0.1}]}
+    w = simhist.new_world(h)
+    w.nest = {'n': 0, 'max': 0, 'entered': 0, 'overlaps': [], 'open': [], 'tokens': [], 'work': [], 'orphans': []}
+    nv = len(res.viol)
+
+    @gen.coroutine
+    def go():
+        yield simhist.boot(w, h)
+        yield w.settle(30)
+        # a stop addressed to one watcher closes its output streams at the end
+        r1 = yield w.call('stop', name='f', waiting=True)
+        yield w.settle(60)
+        st1 = simhist.reported_status(w, 'f')
+        res.obs['failed_stops:%s:%s' % ((r1 or {}).get('status'), st1)] += 1
+        props = {'name': 'f', 'waiting': True}
+        cmd = second
+        if second == 'stop-all':
+            cmd, props = 'stop', {'waiting': True}
+        elif second == 'incr':
+            props['nb'] = 1
+        elif second == 'set':
+            props['options'] = {'numprocesses': 3}
+        r2 = yield w.call(cmd, **props)
+        took = yield w.settle(120)
+        if w.stalled is not None:
+            res.obs['stalled(C05 owns)'] += 1
+            return
+        pr = yield w.call('incr', name='p', nb=0, waiting=True)
+        res.obs['wedge_probes'] += 1
+        slot = w.arb._exclusive_running_command
+        if took is None or pr is None or (pr.get('status') == 'error' and 'already running' in str(pr.get('reason'))):
+            res.violation('C10/wedged-after-a-failed-stop:' + second,
+                          'stop f failed half-way (%s; watcher f reports %s); then %s f was sent: 120 s later the slot '
+                          'is held by %s and the probe is answered %s'
+                          % (str((r1 or {}).get('reason'))[:60], st1, second, slot, str(pr)[:120]))
+        res.nontrivial(repr(('failed-stop', st1, second, (r2 or {}).get('status'))))
+    try:
+        w.run(go)
+        for v in res.viol[nv:]:
+            v['spec'] = dict(spec)
+    finally:
+        w.close()
+    res.sample = res.sample or {'case': 'stop that fails while closing the output stream, then ' + second}
 
 
 def long_gap(spec, res):
